@@ -4866,7 +4866,7 @@ void CheckOther::getErrorMessages(ErrorLogger *errorLogger, const Settings *sett
     c.intToPointerCastError(nullptr, "decimal");
     c.suspiciousFloatingPointCastError(nullptr);
     c.passedByValueError(nullptr, false);
-    // TODO: iterateByValue
+    c.passedByValueError(nullptr, false, true);
     // TODO: passedByValueCallback
     c.constVariableError(nullptr, nullptr);
     c.constStatementError(nullptr, "type", false);
